@@ -19,10 +19,12 @@ import (
 	"verifsim/tape"
 
 	pipeline "github.com/buildkite/go-pipeline"
+	"github.com/buildkite/go-pipeline/jwkutil"
 	"github.com/buildkite/go-pipeline/ordered"
 	"github.com/buildkite/go-pipeline/signature"
 	"github.com/buildkite/go-pipeline/warning"
 	"github.com/davecgh/go-spew/spew"
+	"github.com/lestrrat-go/jwx/v2/jwa"
 	"gopkg.in/yaml.v3"
 )
 
@@ -193,6 +195,37 @@ func (t *c19Task) run(op c19Op, sh *c19Shared) (res string) {
 		err := cs.InterpolateMatrixPermutation(t.perm)
 		b, _ := json.Marshal(cs)
 		return fmt.Sprintf("matrix err=%v %s", err != nil, hashBytes(b))
+	case "keygen":
+		// key generation from several callers (jwkutil is in C18's and C19's scope): outcomes only, never key bytes
+		priv, pub, err := jwkutil.NewKeyPair(fmt.Sprintf("task-%d", t.id), jwa.EdDSA)
+		if err != nil {
+			return "keygen err"
+		}
+		pk, _ := priv.Key(0)
+		uk, _ := pub.Key(0)
+		step := &signature.CommandStepWithInvariants{CommandStep: pipeline.CommandStep{Command: "echo"}, RepositoryURL: "r"}
+		sig, serr := signature.Sign(context.Background(), pk, step)
+		verr := fmt.Errorf("not signed")
+		if serr == nil {
+			verr = signature.Verify(context.Background(), sig, pub, step)
+		}
+		return fmt.Sprintf("keygen valid=%v/%v sign=%v verify=%v", jwkutil.Validate(pk) == nil, jwkutil.Validate(uk) == nil, serr == nil, verr == nil)
+	case "shuffle-fields":
+		// a signed-field list is a set: any order is legal input for Verify
+		if t.pl == nil {
+			return "skip"
+		}
+		n := 0
+		walkCommandSteps(t.pl.Steps, func(cs *pipeline.CommandStep, d int) {
+			if cs.Signature != nil && len(cs.Signature.SignedFields) > 1 {
+				f := cs.Signature.SignedFields
+				for i, j := 0, len(f)-1; i < j; i, j = i+1, j-1 {
+					f[i], f[j] = f[j], f[i]
+				}
+				n++
+			}
+		}, 0)
+		return fmt.Sprintf("shuffled %d", n)
 	case "ownmap":
 		if t.m == nil {
 			t.m = ordered.NewMap[string, any](0)
@@ -325,8 +358,23 @@ func runC19(c *engine.Ctx) {
 		kp = ring.byKind["ES512"][0]
 	}
 	tomb1 := p.Draw(2, "cfg:tombstone") == 1
+	reverseFields := p.Draw(2, "cfg:reverse-signed-fields") == 1
 	w := &signWorld{c: c, features: map[string]bool{}, yamlSafe: true, rich: false}
+	// plugin sources never seen before in this process: a package-level cache keyed by source is
+	// only written (and so only races with readers) the first time a source is met
+	srcN := 0
+	freshSources := func(o *gen.Opts) {
+		inner := o.Str
+		o.Str = func(pos string) string {
+			if pos == "plugin.source" {
+				srcN++
+				return fmt.Sprintf("org%x/plug%d#v%d", c.RunSeed&0xfffffff, srcN, srcN%7)
+			}
+			return inner(pos)
+		}
+	}
 	o := w.opts(3)
+	freshSources(o)
 	o.OnlyCommandish = true
 	o.BigMaps = false
 	sdoc := o.Pipeline()
@@ -351,11 +399,17 @@ func runC19(c *engine.Ctx) {
 		sh.penv = sh.pl.Env.ToMap()
 		if err := signature.SignSteps(context.Background(), sh.pl.Steps, sh.kp.priv, sh.repo, signature.WithEnv(sh.penv)); err == nil {
 			walkCommandSteps(sh.pl.Steps, func(cs *pipeline.CommandStep, d int) {
+				if reverseFields && cs.Signature != nil {
+					f := cs.Signature.SignedFields
+					for i, j := 0, len(f)-1; i < j; i, j = i+1, j-1 {
+						f[i], f[j] = f[j], f[i]
+					}
+				}
 				sh.signed = append(sh.signed, cs)
 				sh.plugins = append(sh.plugins, cs.Plugins...)
 			}, 0)
 		}
-		sh.plugins = append(sh.plugins, &pipeline.Plugin{Source: "docker#v5.9.0", Config: map[string]any{"image": "alpine"}}, &pipeline.Plugin{Source: "my-org/thing"})
+		sh.plugins = append(sh.plugins, &pipeline.Plugin{Source: fmt.Sprintf("shared%x#v5.9.0", c.RunSeed&0xfffffff), Config: map[string]any{"image": "alpine"}}, &pipeline.Plugin{Source: fmt.Sprintf("my-org/thing%x", c.RunSeed&0xfffffff)})
 		return sh
 	}
 	shRef := buildShared()
@@ -372,7 +426,7 @@ func runC19(c *engine.Ctx) {
 	if ntasks > 8 && p.Draw(2, "cfg:fewer") == 1 {
 		ntasks = 2 + ntasks%4
 	}
-	private := []string{"interpolate", "json", "yaml", "sign", "verify", "matrix", "ownmap", "ownmap"}
+	private := []string{"interpolate", "json", "yaml", "sign", "verify", "matrix", "ownmap", "ownmap", "keygen", "shuffle-fields"}
 	shared := []string{"sh.get", "sh.range", "sh.equal", "sh.tomap", "sh.mapjson", "sh.mapyaml", "sh.pljson", "sh.plyaml", "sh.fullsource", "sh.verify", "sh.sign"}
 	mode := p.Draw(3, "cfg:mix") // 0 mixed, 1 mostly shared, 2 mostly private
 	build := func() []*c19Task {
@@ -385,6 +439,7 @@ func runC19(c *engine.Ctx) {
 	for i := 0; i < ntasks; i++ {
 		t := &c19Task{id: i}
 		to := w.opts(3)
+		freshSources(to)
 		to.BigMaps = false
 		to.Unknown = false
 		d := to.Pipeline()
@@ -433,20 +488,10 @@ func runC19(c *engine.Ctx) {
 	freeRunning := c.Tier == "thorough" && p.Draw(4, "cfg:free-running") == 3
 	c.Ev("tasks", ntasks, total, freeRunning)
 
-	// ---- sequential specification: each program alone, on fresh private state
-	want := make([][]string, ntasks)
-	refBefore := dumpShared(shRef)
-	for i, t := range tasks {
-		ref := &c19Task{id: t.id, doc: t.doc, stepDoc: t.stepDoc, perm: t.perm, ops: t.ops}
-		for _, op := range ref.ops {
-			want[i] = append(want[i], ref.run(op, shRef))
-		}
-	}
-	if after := dumpShared(shRef); after != refBefore {
-		c.Fail("C19.observer-mutates", "shared object (sequential pass)", "a shared, only-observed object changed while the programs ran one after another: %s", firstDiffLine(refBefore, after))
-	}
+	// The concurrent pass runs FIRST (on its own freshly built shared objects), the sequential
+	// reference pass afterwards (on a second, identically built set): state that is only written the
+	// first time something is met (lazy compaction, memo caches) is then met concurrently.
 	sharedBefore := dumpShared(sh)
-	// drain anything the sequential pass may have reported (it cannot race, but keep offsets exact)
 	_, c19RaceOff = raceLogRead(c19RaceOff)
 
 	// ---- concurrent run under the token scheduler
@@ -475,6 +520,21 @@ func runC19(c *engine.Ctx) {
 	}
 	wg.Wait()
 
+	raceReport, raceOff := raceLogRead(c19RaceOff)
+	c19RaceOff = raceOff
+
+	// ---- sequential specification: each program alone, on fresh private state
+	want := make([][]string, ntasks)
+	refBefore := dumpShared(shRef)
+	for i, t := range tasks {
+		ref := &c19Task{id: t.id, doc: t.doc, stepDoc: t.stepDoc, perm: t.perm, ops: t.ops}
+		for _, op := range ref.ops {
+			want[i] = append(want[i], ref.run(op, shRef))
+		}
+	}
+	if after := dumpShared(shRef); after != refBefore {
+		c.Fail("C19.observer-mutates", "shared object (sequential pass)", "a shared, only-observed object changed while the programs ran one after another: %s", firstDiffLine(refBefore, after))
+	}
 	// ---- oracles
 	turns := make([]int, ntasks)
 	for _, t := range schedule {
@@ -493,9 +553,8 @@ func runC19(c *engine.Ctx) {
 	c.Sample = map[string]any{"tasks": ntasks, "programs": progs, "schedule": fmt.Sprint(schedule), "free_running": freeRunning}
 	desc := fmt.Sprintf("tasks=%d free-running=%v\n%s\nschedule: %v", ntasks, freeRunning, strings.Join(progs, "\n"), schedule)
 
-	if rep, off := raceLogRead(c19RaceOff); rep != "" {
-		c19RaceOff = off
-		c.Fail("C19.race", raceClass(rep), "the race detector reported:\n%s\n%s", truncate(rep, 3500), desc)
+	if rep := raceReport; rep != "" {
+		c.Fail("C19.race", "data race", "the race detector reported (%s):\n%s\n%s", raceClass(rep), truncate(rep, 3500), desc)
 	}
 	for i, t := range tasks {
 		for j := range t.ops {
